@@ -610,3 +610,276 @@ Section DescribesDoc.
     reflexivity.
   Qed.
 End DescribesDoc.
+
+(* ========================================================================= *)
+(* Part 3: the validator accepts the events                                    *)
+
+(* the validator's contexts, ignoring what it forwards *)
+Fixpoint steps (rc : rcfg) (c : rctx) (es : list event) : option rctx :=
+  match es with
+  | [] => Some c
+  | e :: r => match rstep rc c e with Some (c1, _) => steps rc c1 r | None => None end
+  end.
+
+Lemma steps_app rc c a b :
+  steps rc c (a ++ b) = match steps rc c a with Some c1 => steps rc c1 b | None => None end.
+Proof.
+  revert c. induction a as [|e a IH]; intro c; cbn [steps app]; [reflexivity|].
+  destruct (rstep rc c e) as [[c1 o]|]; [apply IH | reflexivity].
+Qed.
+
+Lemma run_from_steps rc es : forall c i out c',
+  steps rc c es = Some c' -> exists out', run_from rc c i es out = (c', out', None).
+Proof.
+  induction es as [|e es IH]; intros c i out c' H; cbn [steps] in H; cbn [run_from].
+  - injection H as <-. eexists; reflexivity.
+  - destruct (rstep rc c e) as [[c1 o]|]; [|discriminate]. apply (IH c1 _ _ c' H).
+Qed.
+
+Lemma accepts_steps rc es c' :
+  steps rc init_rctx es = Some c' -> e_rule (cur c') = RTerminal -> accepts_document rc es = true.
+Proof.
+  intros H Hr. unfold accepts_document, run.
+  destruct (run_from_steps rc es init_rctx 0 [] c' H) as [out' ->]. rewrite Hr. reflexivity.
+Qed.
+
+(* number of events that count as an object for the validator: all but the end-container events *)
+Definition is_end (e : event) : bool := match e with EEnd => true | _ => false end.
+Fixpoint weight (es : list event) : N :=
+  match es with
+  | [] => 0
+  | e :: r => (if is_end e then 0 else 1) + weight r
+  end.
+Lemma weight_app a b : weight (a ++ b) = weight a + weight b.
+Proof. induction a as [|e a IH]; cbn [weight app]; [reflexivity | rewrite IH; lia]. Qed.
+
+Section Valid.
+  Variable rc : rcfg.
+  Variable c0 : rctx.   (* everything that stays fixed while the value is validated *)
+
+  Definition U (cu : entry) (stk : list entry) (d o : N) : rctx :=
+    {| cur := cu; stack := stk; depth := d; objects := o; rectypes := rectypes c0; rectype_name := rectype_name c0;
+       arr_type := arr_type c0; more_chunks := more_chunks c0; built := built c0; arr_total := arr_total c0;
+       chunk_expected := chunk_expected c0; chunk_actual := chunk_actual c0; utf8_rem := utf8_rem c0;
+       arr_validator := arr_validator c0; marker_id := marker_id c0; marked := marked c0; fwd := fwd c0;
+       refcount := refcount c0 |}.
+  Definition E (r : rule) (dt n : N) (ex : option N) (ks : list nkey) : entry :=
+    {| e_rule := r; e_dtype := dt; e_count := n; e_expected := ex; e_keys := ks |}.
+
+  (* the positions at which a value may stand, and the rule in force after the value *)
+  Definition pos (r : rule) : Prop :=
+    match r with RTopLevel | RList | RMapValue | RRecord | RNode => True | _ => False end.
+  Definition next (r : rule) : rule :=
+    match r with RTopLevel => REndDocument | RMapValue => RMapKey | RNode => RList | x => x end.
+  Definition room (n : N) (ex : option N) : Prop :=
+    match ex with Some x => n + 1 <= x | None => True end.
+
+  Lemma notify_ok r dt n ex ks stk d o :
+    room n ex -> o + 1 <= max_object_count rc ->
+    notify_new_object rc true (U (E r dt n ex ks) stk d o) = Some (U (E r dt (n + 1) ex ks) stk d (o + 1)).
+  Proof.
+    intros Hr Ho. unfold notify_new_object. cbn [cur U E e_count e_expected objects].
+    replace (max_object_count rc <? o + 1) with false by (symmetry; apply N.ltb_ge; exact Ho).
+    destruct ex as [x|]; cbn [room] in Hr.
+    - replace (x <? n + 1) with false by (symmetry; apply N.ltb_ge; exact Hr). reflexivity.
+    - reflexivity.
+  Qed.
+
+  (* one event that is a whole value, at a value position *)
+  Definition scalar_step (e : event) : Prop :=
+    forall r dt n ex ks stk d o, pos r -> room n ex -> o + 1 <= max_object_count rc ->
+      exists out, rstep rc (U (E r dt n ex ks) stk d o) e = Some (U (E (next r) dt (n + 1) ex ks) stk d (o + 1), out).
+
+  Ltac positions r Hp := destruct r; try (exfalso; exact Hp).
+
+  Lemma S_null : scalar_step ENull.
+  Proof.
+    intros r dt n ex ks stk d o Hp Hr Ho. eexists. unfold rstep, simple. rewrite notify_ok by assumption. cbn [obind].
+    positions r Hp; reflexivity.
+  Qed.
+
+  Lemma S_keyable e dt' k :
+    (forall c, rstep rc c e = match keyable rc dt' k c with Some c1 => Some (c1, [e]) | None => None end) ->
+    scalar_step e.
+  Proof.
+    intros He r dt n ex ks stk d o Hp Hr Ho. eexists. rewrite He. unfold keyable. rewrite notify_ok by assumption. cbn [obind].
+    positions r Hp; reflexivity.
+  Qed.
+
+  Lemma S_nonkeyable e e' dt' :
+    (forall c, rstep rc c e = match nonkeyable rc dt' c with Some c1 => Some (c1, [e']) | None => None end) ->
+    scalar_step e.
+  Proof.
+    intros He r dt n ex ks stk d o Hp Hr Ho. eexists. rewrite He. unfold nonkeyable. rewrite notify_ok by assumption. cbn [obind].
+    positions r Hp; reflexivity.
+  Qed.
+
+  Lemma S_bool b : scalar_step (EBool b).
+  Proof. apply (S_keyable _ DT_Bool (RkBool b)). reflexivity. Qed.
+  Lemma S_int z : scalar_step (EInt z).
+  Proof. apply (S_keyable _ DT_Int (RkInt64 z)). reflexivity. Qed.
+  Lemma S_posint n : scalar_step (EPosInt n).
+  Proof. apply (S_keyable _ DT_Int (RkUint64 n)). reflexivity. Qed.
+  Lemma S_bigint z : scalar_step (EBigInt (Some z)).
+  Proof. apply (S_keyable _ DT_Int (RkBigInt z)). reflexivity. Qed.
+  Lemma S_uid b : scalar_step (EUid b).
+  Proof. apply (S_keyable _ DT_UID (RkBytes b)). reflexivity. Qed.
+  Lemma S_time t : scalar_step (ETime t).
+  Proof. apply (S_keyable _ DT_Time (RkTime t)). reflexivity. Qed.
+  Lemma S_float b : scalar_step (EFloat b).
+  Proof.
+    destruct (f64_is_nan b) eqn:Hn.
+    - apply (S_nonkeyable _ (ENan (negb (f64_quiet_bit b))) DT_Nan). intro c. unfold rstep. rewrite Hn. reflexivity.
+    - apply (S_nonkeyable _ (EFloat b) DT_Float). intro c. unfold rstep. rewrite Hn. reflexivity.
+  Qed.
+  Lemma S_bigfloat f : scalar_step (EBigFloat (Some f)).
+  Proof. apply (S_nonkeyable _ (EBigFloat (Some f)) DT_Float). reflexivity. Qed.
+  Lemma S_decimal x : scalar_step (EDecimal x).
+  Proof.
+    destruct x.
+    - apply (S_nonkeyable _ (EDecimal (DFin neg coef exp)) DT_Float). reflexivity.
+    - apply (S_nonkeyable _ (EDecimal (DInf neg)) DT_Float). reflexivity.
+    - apply (S_nonkeyable _ (ENan false) DT_Nan). reflexivity.
+    - apply (S_nonkeyable _ (ENan true) DT_Nan). reflexivity.
+  Qed.
+  Lemma S_bigdecimal x : scalar_step (EBigDecimal (Some x)).
+  Proof.
+    destruct x.
+    - apply (S_nonkeyable _ (EBigDecimal (Some (DFin neg coef exp))) DT_Float). reflexivity.
+    - apply (S_nonkeyable _ (EBigDecimal (Some (DInf neg))) DT_Float). reflexivity.
+    - apply (S_nonkeyable _ (ENan false) DT_Nan). reflexivity.
+    - apply (S_nonkeyable _ (ENan true) DT_Nan). reflexivity.
+  Qed.
+
+  Lemma S_array t n data :
+    array_api_ok t = true -> validate_full_array_any rc t n data = true -> assert_array_type t Allow_Any = true ->
+    scalar_step (EArray t n data).
+  Proof.
+    intros Hapi Hval Hty r dt k ex ks stk d o Hp Hr Ho. eexists. unfold rstep. rewrite Hapi.
+    rewrite notify_ok by assumption. cbn [obind]. unfold call_current, call_fuel.
+    positions r Hp;
+      cbn [call_rule exec_prims exec_prim dispatch cur U E e_rule a_arrty a_count a_data array_args mask_value];
+      rewrite ?Hty, Hval; reflexivity.
+  Qed.
+
+  Lemma S_media mt data :
+    utf8_valid mt = true -> validate_full_array_any rc AT_Media (blen data) data = true ->
+    scalar_step (EMedia mt data).
+  Proof.
+    intros Hmt Hval r dt k ex ks stk d o Hp Hr Ho. eexists. unfold rstep. rewrite Hmt. cbn [negb].
+    rewrite notify_ok by assumption. cbn [obind]. unfold call_current, call_fuel.
+    positions r Hp;
+      cbn [call_rule exec_prims exec_prim dispatch cur U E e_rule a_arrty a_count a_data array_args mask_value];
+      rewrite ?Hval; reflexivity.
+  Qed.
+
+  Lemma S_string t data :
+    array_api_ok t = true -> validate_full_array_stringlike rc t data = true -> assert_array_type t Allow_Any = true ->
+    scalar_step (EStringArray t data).
+  Proof.
+    intros Hapi Hval Hty r dt k ex ks stk d o Hp Hr Ho. eexists. unfold rstep. rewrite Hapi.
+    rewrite notify_ok by assumption. cbn [obind]. unfold call_current, call_fuel.
+    positions r Hp;
+      cbn [call_rule exec_prims exec_prim dispatch cur U E e_rule a_arrty a_count a_data array_args mask_value];
+      rewrite ?Hty, Hval; reflexivity.
+  Qed.
+
+  (* ---- containers ---- *)
+  Lemma S_open e m r' dt' ex' :
+    (forall c, rstep rc c e = match simple rc true m c with Some c1 => Some (c1, [e]) | None => None end) ->
+    (forall r, pos r -> forall c, call_rule call_fuel rc r m no_args c
+                                  = match begin_container rc r' dt' ex' c with Some c1 => Some c1 | None => None end) ->
+    forall r dt n ex ks stk d o, pos r -> room n ex -> o + 1 <= max_object_count rc -> d + 1 <= max_container_depth rc ->
+      rstep rc (U (E r dt n ex ks) stk d o) e
+      = Some (U (E r' dt' 0 ex' []) (E r dt (n + 1) ex ks :: stk) (d + 1) (o + 1), [e]).
+  Proof.
+    intros He Hcall r dt n ex ks stk d o Hp Hr Ho Hd. rewrite He. unfold simple. rewrite notify_ok by assumption.
+    cbn [obind]. unfold call_current. cbn [cur U E e_rule]. rewrite (Hcall r Hp).
+    unfold begin_container. cbn [depth U].
+    replace (max_container_depth rc <? d + 1) with false by (symmetry; apply N.ltb_ge; exact Hd).
+    reflexivity.
+  Qed.
+
+  Lemma S_list : forall r dt n ex ks stk d o, pos r -> room n ex -> o + 1 <= max_object_count rc -> d + 1 <= max_container_depth rc ->
+      rstep rc (U (E r dt n ex ks) stk d o) EList
+      = Some (U (E RList DT_List 0 None []) (E r dt (n + 1) ex ks :: stk) (d + 1) (o + 1), [EList]).
+  Proof. apply (S_open EList MList); [reflexivity|]. intros r Hp c. positions r Hp; reflexivity. Qed.
+  Lemma S_map : forall r dt n ex ks stk d o, pos r -> room n ex -> o + 1 <= max_object_count rc -> d + 1 <= max_container_depth rc ->
+      rstep rc (U (E r dt n ex ks) stk d o) EMap
+      = Some (U (E RMapKey DT_Map 0 None []) (E r dt (n + 1) ex ks :: stk) (d + 1) (o + 1), [EMap]).
+  Proof. apply (S_open EMap MMap); [reflexivity|]. intros r Hp c. positions r Hp; reflexivity. Qed.
+  Lemma S_node : forall r dt n ex ks stk d o, pos r -> room n ex -> o + 1 <= max_object_count rc -> d + 1 <= max_container_depth rc ->
+      rstep rc (U (E r dt n ex ks) stk d o) ENode
+      = Some (U (E RNode DT_List 0 None []) (E r dt (n + 1) ex ks :: stk) (d + 1) (o + 1), [ENode]).
+  Proof. apply (S_open ENode MNode); [reflexivity|]. intros r Hp c. positions r Hp; reflexivity. Qed.
+
+  Lemma S_record id cnt :
+    validate_identifier rc id = true -> alookup id (rectypes c0) = Some cnt ->
+    forall r dt n ex ks stk d o, pos r -> room n ex -> o + 1 <= max_object_count rc -> d + 1 <= max_container_depth rc ->
+      rstep rc (U (E r dt n ex ks) stk d o) (ERecord id)
+      = Some (U (E RRecord DT_Record 0 (Some cnt) []) (E r dt (n + 1) ex ks :: stk) (d + 1) (o + 1), [ERecord id]).
+  Proof.
+    intros Hid Hlook r dt n ex ks stk d o Hp Hr Ho Hd. unfold rstep. rewrite notify_ok by assumption.
+    cbn [obind]. rewrite Hid. unfold call_current, call_fuel.
+    positions r Hp;
+      cbn [call_rule exec_prims exec_prim dispatch cur U E e_rule a_id with_id rectypes];
+      rewrite Hlook; unfold begin_container; cbn [depth U];
+      replace (max_container_depth rc <? d + 1) with false by (symmetry; apply N.ltb_ge; exact Hd);
+      reflexivity.
+  Qed.
+
+  (* the end of a list, a map (at a key position) or a record with all its values *)
+  Lemma S_end fr fdt n fex fks r dt n' ex ks stk d o :
+    fr = RList \/ fr = RMapKey \/ fr = RRecord -> (fdt =? DT_RecordType) = false ->
+    match fex with Some x => n = x | None => True end -> pos r ->
+    rstep rc (U (E fr fdt n fex fks) (E r dt n' ex ks :: stk) (d + 1) o) EEnd
+    = Some (U (E (next r) dt n' ex ks) stk d o, [EEnd]).
+  Proof.
+    intros Hfr Hdt Hex Hp. unfold rstep, call_current, call_fuel.
+    assert (Hcall : call_rule 6 rc fr MEnd no_args (U (E fr fdt n fex fks) (E r dt n' ex ks :: stk) (d + 1) o)
+                    = Some (U (E (next r) dt n' ex ks) stk d o)).
+    { assert (Hend : end_container (call_rule 5 rc) true (U (E fr fdt n fex fks) (E r dt n' ex ks :: stk) (d + 1) o)
+                     = Some (U (E (next r) dt n' ex ks) stk d o)).
+      { unfold end_container. cbn [depth cur U E e_expected e_count e_dtype].
+        replace (d + 1 =? 0) with false by (symmetry; apply N.eqb_neq; lia).
+        replace (match fex with Some x => negb (n =? x) | None => false end) with false
+          by (destruct fex as [x|]; [subst x; rewrite N.eqb_refl; reflexivity | reflexivity]).
+        rewrite Hdt. unfold end_container_like, set_depth. cbn [depth cur stack U E e_dtype unstack_rule set_cur set_stack e_rule].
+        rewrite N.add_sub.
+        positions r Hp; reflexivity. }
+      destruct Hfr as [->|[->| ->]];
+        (match goal with |- call_rule 6 rc ?fr MEnd no_args ?c = _ =>
+           change (call_rule 6 rc fr MEnd no_args c)
+             with (match end_container (call_rule 5 rc) true c with Some c1 => Some c1 | None => None end) end);
+        rewrite Hend; reflexivity. }
+    cbn [cur U E e_rule]. rewrite Hcall. reflexivity.
+  Qed.
+
+  (* map keys *)
+  Lemma S_key e dt' k n ks stk d o :
+    (forall c, rstep rc c e = match keyable rc dt' k c with Some c1 => Some (c1, [e]) | None => None end) ->
+    existsb (nkey_eqb (norm_key k)) ks = false -> o + 1 <= max_object_count rc ->
+    rstep rc (U (E RMapKey DT_Map n None ks) stk d o) e
+    = Some (U (E RMapValue DT_Map (n + 1) None (norm_key k :: ks)) stk d (o + 1), [e]).
+  Proof.
+    intros He Hfresh Ho. rewrite He. unfold keyable. rewrite notify_ok by (try exact I; assumption). cbn [obind].
+    unfold call_current, call_fuel.
+    cbn [call_rule exec_prims exec_prim dispatch cur U E e_rule a_key].
+    unfold notify_key. cbn [cur U E e_keys]. rewrite Hfresh. reflexivity.
+  Qed.
+
+  Lemma S_key_string s n ks stk d o :
+    validate_full_array_stringlike rc AT_String s = true ->
+    existsb (nkey_eqb (NkString s)) ks = false -> o + 1 <= max_object_count rc ->
+    rstep rc (U (E RMapKey DT_Map n None ks) stk d o) (EStringArray AT_String s)
+    = Some (U (E RMapValue DT_Map (n + 1) None (NkString s :: ks)) stk d (o + 1), [EStringArray AT_String s]).
+  Proof.
+    intros Hval Hfresh Ho. unfold rstep. change (array_api_ok AT_String) with true. cbv iota.
+    rewrite notify_ok by (try exact I; assumption). cbn [obind].
+    unfold call_current, call_fuel.
+    cbn [call_rule exec_prims exec_prim dispatch cur U E e_rule a_arrty a_data array_args].
+    change (assert_array_type AT_String Allow_Keyable) with true. cbn [andb]. rewrite Hval.
+    unfold key_from_array. change (AT_String =? AT_String) with true. cbv iota.
+    unfold notify_key. cbn [cur U E e_keys norm_key]. rewrite Hfresh. reflexivity.
+  Qed.
+End Valid.
